@@ -30,10 +30,12 @@ PROP = dict(
         quick="{LMS mu{0.01,0.1,0.5} x leak{1,0.999,0.9}; NLMS mu{0.01,0.1,0.5,1} x leak{1,0.999,0.9}; RLS lambda{0.9,0.95,0.99,1} x delta{1e-2,1,1e2,1e4}} "
               "x {real,complex} x len{2,3,4,8,16} x x-letters{LCG white, sinusoid, impulse train} x d-letters{system impulse, decaying/rotating, dense, independent}, "
               "horizon 32, one sample per call; adapt.long: 8 parameter sets (LMS, NLMS, RLS lambda{0.9,0.95,0.99}) x len{2,4,8} x real/complex x white input x "
-              "{dense system, independent d}, 200 unlocked samples on one object against the long-double recursion; rls.batch on the RLS part; histories: len{2,3,4} x whole box x 4 letter pairs (incl. a white letter whose level steps by 20 dB between granules: 0.01, 0.1, 1, ...) x all 32 framings of 6 granules "
+              "{dense system, independent d}, 200 unlocked samples on one object against the long-double recursion, plus geometric-factor horizons > 1.2*745/|ln f|: "
+              "LMS(mu 0.1)/NLMS(mu 0.5) with leak f and RLS(delta 1) with lambda f, (f, horizon) in {(0.5, 1300), (0.9, 8500)}, len{2,4}, real/complex, every sample judged "
+              "(finite y/e/coeffs(), identities, recursion); rls.batch on the RLS part; histories: len{2,3,4} x whole box x 4 letter pairs (incl. a white letter whose level steps by 20 dB between granules: 0.01, 0.1, 1, ...) x all 32 framings of 6 granules "
               "(2 samples each) x all 2^frames lock schedules x 3 coeffs() read policies {after every frame, only at the end, only after locked frames} (3*486 histories + 64 per-sample drives per case) + every history re-run with a rejected call process(x',d'), len(x') != len(d') (x' longer / shorter), inserted at every frame boundary in turn, len{8,16}: 6 parameter sets x 4 granules of len/2+1; "
               "convergence: len 2..16, 32, 64 x NLMS(mu 1, leak 1; 40*len samples) / RLS(lambda 1, delta 1e4; 4*len samples) x real/complex x 3 systems x system length {len, len/2, 1}",
-        thorough="as quick with len{2,3,4,5,6,8,12,16,24,32,48,64}, horizon 64; adapt.long with len{2,3,4,8,16} and 1000 samples; histories with granule sizes 1, 2, 3 (6 granules) and 7 granules of 2 samples "
+        thorough="as quick with len{2,3,4,5,6,8,12,16,24,32,48,64}, horizon 64; adapt.long with len{2,3,4,8,16} and 1000 samples and additionally (f, horizon) = (0.99, 90000); histories with granule sizes 1, 2, 3 (6 granules) and 7 granules of 2 samples "
                  "(3*1458 histories + 128 drives per case), long filters also 32 and 64; convergence for every len 2..64"),
     deadline=dict(quick=150, thorough=1500),
     assumptions=COMMON_ASSUME + [
